@@ -105,7 +105,11 @@ type unmarshalTextDecoder struct {
 
 func (d *unmarshalTextDecoder) FromDom(vp unsafe.Pointer, node Node, ctx *context) error {
 	if node.IsNull() {
-		*(*unsafe.Pointer)(vp) = nil
+		// only an interface destination is reset; for a value reached through its
+		// pointer-receiver method null is a no-op (vp points at the value itself)
+		if d.typ.Kind() == reflect.Interface {
+			*(*unsafe.Pointer)(vp) = nil
+		}
 		return nil
 	}
 
